@@ -36,10 +36,43 @@ def token_gate(fn):
     return is_pass
 
 
-def handler_effects(fn):
+FS_EFFECTS = ('std::filesystem::remove', 'std::filesystem::remove_all', 'std::filesystem::rename', 'std::filesystem::copy', 'std::filesystem::copy_file',
+              'std::filesystem::create_directories', 'std::filesystem::create_directory', 'std::filesystem::resize_file', 'std::filesystem::permissions',
+              'std::filesystem::create_symlink', 'std::filesystem::create_hard_link', 'remove', 'unlink', 'rename', 'std::remove', 'std::rename')
+
+
+def fs_effect(fn, i):
+    nd = fn.nodes[i]
+    c = nd.get('callee') or ''
+    if c in FS_EFFECTS:
+        return c.split('::')[-1] + '(file)'
+    if nd['k'] in ('CXXConstructExpr', 'CXXTemporaryObjectExpr') and c.startswith(('std::basic_ofstream', 'std::basic_fstream')) and fn.kids(i):
+        return 'ofstream(file)'
+    return None
+
+
+def handler_effects(fn, P=None):
     effs = []
+    # a local lambda that touches the file system is an effect wherever the handler calls it (the refusal helpers run before the gate)
+    if P is not None:
+        for lam in P.lambdas_of(fn.q):
+            hits = [fs_effect(lam, j) for j in lam.walk()]
+            hits = [h for h in hits if h]
+            if not hits:
+                continue
+            var = lam.q.rsplit('::$', 1)[-1]
+            for i in fn.walk():
+                nd = fn.nodes[i]
+                if nd['k'] == 'CXXOperatorCallExpr' and nd.get('op') == '()' and fn.kids(i):
+                    obj = fn.nodes[fn.strip(fn.kids(i)[1])] if len(fn.kids(i)) > 1 else {}
+                    if obj.get('k') == 'DeclRefExpr' and obj.get('n') == var:
+                        effs.append(('%s() -> %s' % (var, hits[0]), i))
     for i in fn.walk():
         nd = fn.nodes[i]
+        fe = fs_effect(fn, i)
+        if fe:
+            effs.append((fe, i))
+            continue
         c = nd.get('callee')
         if not c:
             continue
@@ -102,7 +135,7 @@ def run(ck):
     for cmd in GATED_COMMANDS:
         fn = P.fn(table[cmd])
         ck.touch(fn)
-        effs = handler_effects(fn)
+        effs = handler_effects(fn, P)
         total_effects += len(effs)
         if not effs:
             raise AnalysisBroken('handler %s has no recognisable effect' % fn.q)
